@@ -22,7 +22,8 @@ from props import PROPS  # noqa: E402
 
 def goenv():
     e = dict(os.environ)
-    e.update({"GOPROXY": "off", "GOSUMDB": "off", "GOTOOLCHAIN": "local", "GOFLAGS": ""})
+    # scratch copies of the repository (self-test) are built with -trimpath so that the build cache is shared between them
+    e.update({"GOPROXY": "off", "GOSUMDB": "off", "GOTOOLCHAIN": "local", "GOFLAGS": "" if REPO == "/repo" else "-trimpath"})
     e.pop("GOWORK", None)
     return e
 
